@@ -250,6 +250,13 @@ def run_episode(ep: Episode) -> Result:
         def do_event(kind, arg):
             try:
                 if kind == "foreign":
+                    # two of the foreign packets carry the very header of pool command 0's echo / reply: the sender cannot
+                    # tell them from its own (recorded finding); for the model they are labelled as what they are taken for
+                    # (the reply addressed to another gateway only once the echo is in: before that the addressee is checked)
+                    if arg == 3:
+                        res.pkts.append((loop.time(), "echo", 0))
+                    elif arg == 1 and isinstance(ctx._state, F.WantRply):
+                        res.pkts.append((loop.time(), "reply", 0))
                     protocol.pkt_received(Packet.from_port(VClockDt.now(), "050 " + FOREIGN[arg]))
                 elif kind in ("conn_lost", "conn_lost_made"):
                     res.conn_lost_at.append(loop.time())
